@@ -5,7 +5,14 @@
      AddMetric c n   one complete `add_metric(request)` call; n is the request's channel name
                      (`get_channel_name()`: namespace, component id, metric id, start time) seen from
                      component c: the metric plus a tag for the (namespace, start) pair.
-     HandlerStart c  first step of a (re)created `_handle_data_stream(c, category)` task (or of a
+     HandlerOpen c   a (re)created `_handle_data_stream(c, category)` task finds no API receiver for c, validates
+                     the requested metrics and calls the API client's `<category>_data(c)`; the call may stay
+                     pending for any number of loop iterations / any time (state HOpening).  A request arriving
+                     meanwhile cancels the task in that await (AddMetric: HOpening -> HStarting); the replacement
+                     task opens the stream again.  Nothing of the cancelled call survives (assumption: the client
+                     creates the receiver only when the call returns, as frequenz-client-microgrid does).
+     HandlerStart c  the opening call returned (from HOpening) or the receiver already existed (from HStarting):
+                     the step of a (re)created `_handle_data_stream(c, category)` task (or of a
                      `run_forever` retry after a crash): validate, create the API receiver if it does
                      not exist yet, take the snapshot of the requested metrics (`_get_metric_senders`).
      ApiMsg c m      the microgrid API delivers data message m of component c (enqueued in the
@@ -50,7 +57,8 @@ Definition supported (cat : category) (m : metric) : bool :=
 Definition sample_of (n : name) (m : msg) : sample :=
   (m_ts m, nth (Z.to_nat (n_metric n)) (m_vals m) 0).
 
-Inductive hstate := HStarting | HRunning (snap : list name) | HCrashed.
+Inductive hstate := HStarting | HRunning (snap : list name) | HCrashed
+  | HOpening.   (* suspended in the API client's `<category>_data(c)` call that opens the component's stream *)
 
 Record task := mkT { t_comp : comp; t_snap : list name; t_msg : msg }.
 
@@ -75,6 +83,7 @@ Definition mem_name (n : name) (l : list name) : bool := existsb (name_eqb n) l.
 
 Inductive event :=
 | AddMetric (c : comp) (n : name)
+| HandlerOpen (c : comp)
 | HandlerStart (c : comp)
 | ApiMsg (c : comp) (m : msg)
 | Take (c : comp)
@@ -89,6 +98,30 @@ Definition fanout (t : task) : list out :=
 
 Definition queue (s : state) (c : comp) : list msg := default [] (st_recv s c).
 
+(* validation shared by both paths of a handler (re)start: `_check_<category>_request` before the opening
+   call, `_get_metric_senders` afterwards; either raises for a metric the category has no extractor for *)
+Definition set_hand (s : state) (c : comp) (h : hstate) : state :=
+  mkSt (st_subs s) (st_recv s) (upd (st_hand s) c (Some h)) (st_fly s) (st_acc s) (st_taken s) (st_out s).
+
+Definition do_open (cats : comp -> option category) (s : state) (c : comp) : option state :=
+  match cats c with
+  | Some cat => if forallb (fun n => supported cat (n_metric n)) (st_subs s c)
+                then Some (set_hand s c HOpening) else Some (set_hand s c HCrashed)
+  | None => None
+  end.
+
+Definition do_start (cats : comp -> option category) (s : state) (c : comp) : option state :=
+  match cats c with
+  | Some cat =>
+      if forallb (fun n => supported cat (n_metric n)) (st_subs s c)
+      then Some (mkSt (st_subs s)
+                      (match st_recv s c with None => upd (st_recv s) c (Some []) | Some _ => st_recv s end)
+                      (upd (st_hand s) c (Some (HRunning (st_subs s c))))
+                      (st_fly s) (st_acc s) (st_taken s) (st_out s))
+      else Some (set_hand s c HCrashed)                              (* ValueError / KeyError *)
+  | None => None
+  end.
+
 (* [cats] is what `api_client.components()` answers: None = unknown component id *)
 Definition step (cats : comp -> option category) (s : state) (e : event) : option (state * list out) :=
   match e with
@@ -102,16 +135,15 @@ Definition step (cats : comp -> option category) (s : state) (e : event) : optio
                           (upd (st_hand s) c (Some HStarting))     (* cancel + create_task *)
                           (st_fly s) (st_acc s) (st_taken s) (st_out s), [])
       end
+  | HandlerOpen c =>
+      match st_hand s c, st_recv s c with
+      | Some HStarting, None | Some HCrashed, None => option_map (fun s' => (s', [])) (do_open cats s c)
+      | _, _ => None
+      end
   | HandlerStart c =>
-      match st_hand s c, cats c with
-      | Some HStarting, Some cat | Some HCrashed, Some cat =>
-          if forallb (fun n => supported cat (n_metric n)) (st_subs s c)
-          then Some (mkSt (st_subs s)
-                          (match st_recv s c with None => upd (st_recv s) c (Some []) | Some _ => st_recv s end)
-                          (upd (st_hand s) c (Some (HRunning (st_subs s c))))
-                          (st_fly s) (st_acc s) (st_taken s) (st_out s), [])
-          else Some (mkSt (st_subs s) (st_recv s) (upd (st_hand s) c (Some HCrashed))   (* ValueError / KeyError *)
-                          (st_fly s) (st_acc s) (st_taken s) (st_out s), [])
+      match st_hand s c, st_recv s c with
+      | Some HStarting, Some _ | Some HCrashed, Some _ | Some HOpening, _ =>
+          option_map (fun s' => (s', [])) (do_start cats s c)
       | _, _ => None
       end
   | ApiMsg c m =>
@@ -136,9 +168,7 @@ Definition step (cats : comp -> option category) (s : state) (e : event) : optio
       end
   | HandlerFail c =>
       match st_hand s c with
-      | Some HStarting | Some HCrashed =>
-          Some (mkSt (st_subs s) (st_recv s) (upd (st_hand s) c (Some HCrashed))
-                     (st_fly s) (st_acc s) (st_taken s) (st_out s), [])
+      | Some HStarting | Some HCrashed | Some HOpening => Some (set_hand s c HCrashed, [])
       | _ => None
       end
   | AddFault _ _ => Some (s, [])
@@ -187,7 +217,8 @@ Definition obs_ok (s s' : state) (e : event) (o : list out) (ob : observed) : bo
           Bool.eqb created (match st_recv s c with None => true | Some _ => false end)
       | _ => false
       end
-  | HandlerStart c, OCrash | HandlerFail c, OCrash => match st_hand s' c with Some HCrashed => true | _ => false end
+  | HandlerOpen c, ONone => match st_hand s' c with Some HOpening => true | _ => false end
+  | HandlerOpen c, OCrash | HandlerStart c, OCrash | HandlerFail c, OCrash => match st_hand s' c with Some HCrashed => true | _ => false end
   | AddFault _ _, ONone | Restart, ONone => true
   | Take c, OTake m => match rev (st_taken s') with t :: _ => (t_comp t =? c) && msg_eqb (t_msg t) m | [] => false end
   | Deliver, OSent o' => same_set out_eqb o o'
@@ -212,7 +243,7 @@ Definition quiescent (s : state) (cs : list comp) : bool :=
   match st_fly s with [] => true | _ => false end &&
   forallb (fun c => match st_hand s c, st_recv s c with
                     | Some (HRunning _), Some (_ :: _) => false
-                    | Some HStarting, _ => false
+                    | Some HStarting, _ | Some HOpening, _ => false
                     | _, _ => true
                     end) cs.
 
